@@ -45,7 +45,7 @@ func zzMatches(got string, ref []byte, n int, suffix string) bool {
 func HarnessC02JSONName() {
 	maxN := 4
 	if zz.Tier() == 1 {
-		maxN = 6
+		maxN = 8
 	}
 	n := zz.IntRange(1, maxN)
 	name := zz.String(n)
